@@ -311,9 +311,10 @@ def check_bs(case, ctx):
                     s4 = call(run_stream, name, kw, B[0], g, a, m, seed, order, False, True)
                     if ctx.returned(s4, clause="streaming with the returned object fed straight back", route=r2) and s1.ok:
                         S4 = np.asarray(s4.value, float)
-                        same4 = S4.shape == np.asarray(s1.value).shape and np.array_equal(S4, np.asarray(s1.value, float), equal_nan=True)
-                        ctx.ok("feeding update()'s own return value back gives the same stream as feeding plain arrays", same4,
-                               {"max_diff": float(np.nanmax(np.abs(S4 - np.asarray(s1.value, float)))) if S4.shape == np.asarray(s1.value).shape else None}, route=r2)
+                        S1_ = np.asarray(s1.value, float)
+                        # (to the batch-vs-stream tolerance, not bit for bit: an update that skips re-normalising an object it returned itself differs in the last bits)
+                        d4 = float(np.nanmax(np.abs(S4 - S1_))) if S4.shape == S1_.shape and np.array_equal(np.isnan(S4), np.isnan(S1_)) else float("inf")
+                        ctx.le("feeding update()'s own return value back gives the same stream as feeding plain arrays", d4, TOL_BS, {"shape": list(S4.shape)}, route=r2)
                 # the other way of telling a streamed filter its sampling step: a bare instance and dt handed to every update() call
                 s3 = call(run_stream, name, kw, B[0], g, a, m, seed, order, True)
                 if ctx.returned(s3, clause="streaming through update(dt=...) on an instance built without its rate", route=r2):
